@@ -411,7 +411,9 @@ impl<T: Read + Seek> Iterator for PointCloudReaderSimple<'_, T> {
                 convert_intensity(p);
             }
         }
-        if self.transform {
+        // Without a pose there is nothing to apply, the identity matrix would still
+        // turn infinite coordinates into NaN values and change the sign of zeros.
+        if self.transform && self.pc.transform.is_some() {
             for p in self.buffer.iter_mut() {
                 transform_point(p, &self.rotation, &self.translation);
             }
